@@ -132,7 +132,11 @@ def register_get_unstable(reg):
                 "every-node-under-a-region": "forall([INT, KEY], lambda n, k: implies(0 <= n < it1 and hits(n, k), 0 <= rpos[(n, k)] < len(result) and result[rpos[(n, k)]] == k[0]))",
             }),
             2: Loop(index="it2", fingerprint="for nd in node", invariant={}),
-            3: Loop(index="it3", fingerprint="for nd in node", invariant={
+            3: Loop(index="it3", fingerprint="for nd in node",
+                    pres_from={"only-nodes-under-a-region": ["found-are-hits", "loop3:only-nodes-under-a-region"],
+                               "every-node-under-an-earlier-region": ["loop3:every-node-under-an-earlier-region", "loop3:only-nodes-under-a-region"],
+                               "this-region-so-far": ["loop3:this-region-so-far", "loop3:only-nodes-under-a-region"]},
+                    invariant={
                 "only-nodes-under-a-region": "forall(lambda p: implies(0 <= p < len(result), 0 <= rn[p] <= it1 - 1 and hits(rn[p], rkey[p]) and result[p] == rkey[p][0]))",
                 "every-node-under-an-earlier-region": "forall([INT, KEY], lambda n, k: implies(0 <= n < it1 - 1 and hits(n, k), 0 <= rpos[(n, k)] < len(result) and result[rpos[(n, k)]] == k[0]))",
                 "this-region-so-far": "forall(lambda t: implies(0 <= t < it3, 0 <= rpos[(it1 - 1, node[t])] < len(result) and result[rpos[(it1 - 1, node[t])]] == node[t][0]))",
